@@ -46,86 +46,12 @@ func c13(c *Ctx) {
 	u.originFallback("C13.fallback")
 	u.chainOnly("C13.fallback", "origin")
 
-	// ---- same-origin
-	{
-		fn := u.sameOrigin
-		fold := c.fn("equalASCIIFold")
-		ok, why := true, "true only for an absent Origin; otherwise the verdict of equalASCIIFold(url.Parse(origin[0]).Host, r.Host)"
-		nTrue, nFold := 0, 0
-		c.explore("C13.same-origin", fn, core.Opts{NonNilOnNilErr: true}, func(p *core.Path) {
-			if p.End != core.EndReturn || len(p.Results) != 1 {
-				return
-			}
-			res := p.Results[0]
-			// the Origin header values
-			var origin *core.Term
-			for _, l := range p.Lits {
-				l.T.Walk(func(t *core.Term) bool {
-					if t.Kind == core.KLookup && isRequestHeader(t.Args[0]) {
-						if k, isS := t.Args[1].StrVal(); isS && k == "Origin" {
-							origin = t
-						}
-					}
-					return true
-				})
-			}
-			if b, isB := res.BoolVal(); isB {
-				if !b {
-					return
-				}
-				nTrue++
-				empty := origin != nil && (hasLit(p, len(p.Lits), true, func(t *core.Term) bool {
-					return t.Kind == core.KEq && t.Args[0].Kind == core.KLen && t.Args[0].Args[0] == origin && func() bool { v, isC := t.Args[1].Int64(); return isC && v == 0 }()
-				}) || knowsLt(p, len(p.Lits), 1, func(y *core.Term) bool { return y.Kind == core.KLen && y.Args[0] == origin }))
-				if !empty {
-					ok, why = false, "checkSameOrigin returns true at "+c.P.Pos(p.Ret.Pos())+" although an Origin header is present"
-				}
-				return
-			}
-			// non-constant result: must be the fold comparison of the two hosts
-			if !(res.Kind == core.KCall && res.Ref == interface{}(fold) && len(res.Args) == 2) {
-				ok, why = false, "checkSameOrigin decides by "+res.String()+" instead of equalASCIIFold(origin host, request host)"
-				return
-			}
-			nFold++
-			a, b := res.Args[0], res.Args[1]
-			isHostOf := func(t *core.Term, pred func(base *core.Term) bool) bool {
-				return t.Kind == core.KLoad && t.Args[0].Kind == core.KFieldAddr && t.Args[0].Var.Name() == "Host" && pred(t.Args[0].Args[0])
-			}
-			var parse *core.Term
-			isParsed := func(base *core.Term) bool {
-				if base.Kind == core.KExtract && base.N == 0 && base.Args[0].Kind == core.KCall {
-					if f, isF := base.Args[0].Ref.(*ssa.Function); isF && extName(f) == "net/url.Parse" {
-						parse = base.Args[0]
-						return true
-					}
-				}
-				return false
-			}
-			isReq := func(base *core.Term) bool { return base.Kind == core.KParam }
-			if !((isHostOf(a, isParsed) && isHostOf(b, isReq)) || (isHostOf(b, isParsed) && isHostOf(a, isReq))) {
-				ok, why = false, "the strings compared are not url.Parse(origin).Host and r.Host themselves (e.g. a port or userinfo is stripped, or a different parser is used)"
-				return
-			}
-			// parsed from the first Origin value, error checked
-			arg := parse.Args[0]
-			if !(origin != nil && arg.Kind == core.KLoad && arg.Args[0].Kind == core.KIndexAddr && arg.Args[0].Args[0] == origin) {
-				ok, why = false, "the URL parsed is not the request's Origin header value"
-			} else if i, isC := arg.Args[0].Args[1].Int64(); !isC || i != 0 {
-				ok, why = false, "the URL parsed is not the first Origin header value"
-			}
-			perr := p.X.ExtractOf(parse, 1, nil)
-			if !hasLit(p, len(p.Lits), true, func(t *core.Term) bool { return isEqNil(t, is(perr)) }) {
-				ok, why = false, "an unparsable Origin is not refused before the comparison"
-			}
-		})
-		r.Check("C13.same-origin", shortFn(fn), "true-only-if-absent-or-fold-equal", fn.Pos(), ok && nTrue > 0 && nFold > 0, why)
-	}
-	c13fold(c)
+	c13sameOrigin(c, u, "C13.same-origin")
+	c13fold(c, "C13.ascii-only")
 }
 
 // c13fold: the ASCII-only case folding of equalASCIIFold.
-func c13fold(c *Ctx) {
+func c13fold(c *Ctx, rule string) {
 	r := c.R
 	fn := c.fn("equalASCIIFold")
 	// callees
@@ -156,7 +82,7 @@ func c13fold(c *Ctx) {
 				}
 			}
 		}
-		r.Check("C13.ascii-only", shortFn(fn), "no-unicode-folding-callee", fn.Pos(), ok, why)
+		r.Check(rule, shortFn(fn), "no-unicode-folding-callee", fn.Pos(), ok, why)
 	}
 	type iterPath struct {
 		lits      []core.Lit
@@ -167,7 +93,7 @@ func c13fold(c *Ctx) {
 	var paths []iterPath
 	var x *core.Explorer
 	okShape, whyShape := true, "true is returned only as the final comparison of the remainders; strings advance by the decoded sizes"
-	c.explore("C13.ascii-only", fn, core.Opts{Unroll: 0}, func(p *core.Path) {
+	c.explore(rule, fn, core.Opts{Unroll: 0}, func(p *core.Path) {
 		x = p.X
 		// last iteration: last two DecodeRune calls
 		var calls []*core.Event
@@ -208,9 +134,9 @@ func c13fold(c *Ctx) {
 		ip.desc = c.P.Pos(b.Instr.Pos())
 		paths = append(paths, ip)
 	})
-	r.Check("C13.ascii-only", shortFn(fn), "result-is-final-comparison", fn.Pos(), okShape, whyShape)
+	r.Check(rule, shortFn(fn), "result-is-final-comparison", fn.Pos(), okShape, whyShape)
 	if len(paths) < 4 || x == nil {
-		r.Fail("C13.ascii-only", shortFn(fn), "rune-pair-table", fn.Pos(), fmt.Sprintf("only %d iteration paths recognised", len(paths)))
+		r.Fail(rule, shortFn(fn), "rune-pair-table", fn.Pos(), fmt.Sprintf("only %d iteration paths recognised", len(paths)))
 		return
 	}
 	dom := foldDomain(c.Tier == "thorough")
@@ -266,7 +192,84 @@ func c13fold(c *Ctx) {
 	if undecided > 0 && ok {
 		ok, why = false, "the per-rune decision contains a term the analyser cannot evaluate (e.g. a library folding function)"
 	}
-	r.Check("C13.ascii-only", shortFn(fn), "rune-pair-table", fn.Pos(), ok, why)
+	r.Check(rule, shortFn(fn), "rune-pair-table", fn.Pos(), ok, why)
 }
 
 func mentions(t, sub *core.Term) bool { return t.Contains(sub) }
+
+// c13sameOrigin: checkSameOrigin accepts only an absent Origin or a host equal to the request's under ASCII folding.
+func c13sameOrigin(c *Ctx, u *upgA, rule string) {
+	r := c.R
+	fn := u.sameOrigin
+	fold := c.fn("equalASCIIFold")
+	ok, why := true, "true only for an absent Origin; otherwise the verdict of equalASCIIFold(url.Parse(origin[0]).Host, r.Host)"
+	nTrue, nFold := 0, 0
+	c.explore(rule, fn, core.Opts{NonNilOnNilErr: true}, func(p *core.Path) {
+		if p.End != core.EndReturn || len(p.Results) != 1 {
+			return
+		}
+		res := p.Results[0]
+		// the Origin header values
+		var origin *core.Term
+		for _, l := range p.Lits {
+			l.T.Walk(func(t *core.Term) bool {
+				if t.Kind == core.KLookup && isRequestHeader(t.Args[0]) {
+					if k, isS := t.Args[1].StrVal(); isS && k == "Origin" {
+						origin = t
+					}
+				}
+				return true
+			})
+		}
+		if b, isB := res.BoolVal(); isB {
+			if !b {
+				return
+			}
+			nTrue++
+			empty := origin != nil && (hasLit(p, len(p.Lits), true, func(t *core.Term) bool {
+				return t.Kind == core.KEq && t.Args[0].Kind == core.KLen && t.Args[0].Args[0] == origin && func() bool { v, isC := t.Args[1].Int64(); return isC && v == 0 }()
+			}) || knowsLt(p, len(p.Lits), 1, func(y *core.Term) bool { return y.Kind == core.KLen && y.Args[0] == origin }))
+			if !empty {
+				ok, why = false, "checkSameOrigin returns true at "+c.P.Pos(p.Ret.Pos())+" although an Origin header is present"
+			}
+			return
+		}
+		// non-constant result: must be the fold comparison of the two hosts
+		if !(res.Kind == core.KCall && res.Ref == interface{}(fold) && len(res.Args) == 2) {
+			ok, why = false, "checkSameOrigin decides by "+res.String()+" instead of equalASCIIFold(origin host, request host)"
+			return
+		}
+		nFold++
+		a, b := res.Args[0], res.Args[1]
+		isHostOf := func(t *core.Term, pred func(base *core.Term) bool) bool {
+			return t.Kind == core.KLoad && t.Args[0].Kind == core.KFieldAddr && t.Args[0].Var.Name() == "Host" && pred(t.Args[0].Args[0])
+		}
+		var parse *core.Term
+		isParsed := func(base *core.Term) bool {
+			if base.Kind == core.KExtract && base.N == 0 && base.Args[0].Kind == core.KCall {
+				if f, isF := base.Args[0].Ref.(*ssa.Function); isF && extName(f) == "net/url.Parse" {
+					parse = base.Args[0]
+					return true
+				}
+			}
+			return false
+		}
+		isReq := func(base *core.Term) bool { return base.Kind == core.KParam }
+		if !((isHostOf(a, isParsed) && isHostOf(b, isReq)) || (isHostOf(b, isParsed) && isHostOf(a, isReq))) {
+			ok, why = false, "the strings compared are not url.Parse(origin).Host and r.Host themselves (e.g. a port or userinfo is stripped, or a different parser is used)"
+			return
+		}
+		// parsed from the first Origin value, error checked
+		arg := parse.Args[0]
+		if !(origin != nil && arg.Kind == core.KLoad && arg.Args[0].Kind == core.KIndexAddr && arg.Args[0].Args[0] == origin) {
+			ok, why = false, "the URL parsed is not the request's Origin header value"
+		} else if i, isC := arg.Args[0].Args[1].Int64(); !isC || i != 0 {
+			ok, why = false, "the URL parsed is not the first Origin header value"
+		}
+		perr := p.X.ExtractOf(parse, 1, nil)
+		if !hasLit(p, len(p.Lits), true, func(t *core.Term) bool { return isEqNil(t, is(perr)) }) {
+			ok, why = false, "an unparsable Origin is not refused before the comparison"
+		}
+	})
+	r.Check(rule, shortFn(fn), "true-only-if-absent-or-fold-equal", fn.Pos(), ok && nTrue > 0 && nFold > 0, why)
+}
